@@ -24,6 +24,12 @@ type Conn struct {
 	// For preventing races on (dis)connect.
 	mu sync.RWMutex
 
+	// Serialises Connect and Close as a whole. It is held while a connection
+	// is being torn down (which waits for handlers to finish), so that mu
+	// only needs to be held briefly and accessors like Connected() can be
+	// called from handlers at any time.
+	lifeMu sync.Mutex
+
 	// Contains parameters that people can tweak to change client behaviour.
 	cfg *Config
 
@@ -386,6 +392,8 @@ func (conn *Conn) ConnectContext(ctx context.Context) error {
 
 // internalConnect handles the work of actually connecting to the server.
 func (conn *Conn) internalConnect(ctx context.Context) error {
+	conn.lifeMu.Lock()
+	defer conn.lifeMu.Unlock()
 	conn.mu.Lock()
 	defer conn.mu.Unlock()
 	vhook("conn.lock", conn)
@@ -663,11 +671,13 @@ func (conn *Conn) Close() error {
 func (conn *Conn) close(sock net.Conn) error {
 	// Guard against double-call of Close() if we get an error in send()
 	// as calling sock.Close() will cause recv() to receive EOF in readstring()
+	conn.lifeMu.Lock()
 	conn.mu.Lock()
 	vhook("close.lock", conn)
 	if !conn.connected || (sock != nil && sock != conn.sock) {
 		vhook("close.noop", conn)
 		conn.mu.Unlock()
+		conn.lifeMu.Unlock()
 		return nil
 	}
 	logging.Info("irc.Close(): Disconnected from server.")
@@ -677,6 +687,9 @@ func (conn *Conn) close(sock net.Conn) error {
 	if conn.die != nil {
 		conn.die()
 	}
+	// Handlers that are still running may call Connected() and friends:
+	// do not hold mu while waiting for them, lifeMu keeps Connect out.
+	conn.mu.Unlock()
 	// Drain both in and out channels to avoid a deadlock if the buffers
 	// have filled. See TestSendDeadlockOnFullBuffer in connection_test.go.
 	// Keep draining until every goroutine has exited: recv may still be
@@ -696,7 +709,7 @@ drain:
 		}
 	}
 	vhook("close.waited", conn)
-	conn.mu.Unlock()
+	conn.lifeMu.Unlock()
 	vhook("close.unlock", conn)
 	// Dispatch after closing connection but before reinit
 	// so event handlers can still access state information.
